@@ -5,7 +5,7 @@
 (2) S->I: every emitted (path, leaf) becomes a dynamic value making exactly those serde calls; real
     json::{to_string,to_vec,to_writer,pretty} and smile::{to_vec,to_writer}; output tokenised with plain
     serde_json / serde_smile, token at the path compared with the Conjure spelling computed from the concrete leaf;
-    bytes decoded with all 13 client/server x str/slice/reader/mut-slice entry points and compared.
+    bytes decoded with all 25 client/server x str/slice/reader/mut-slice entry points (Deserializer structs and convenience functions) and compared.
 (3) I->S: seeded random trees (depth <=6) serialised through the REAL wrappers over a recording backend (hook
     conjure_serde::verif); one trace line per leaf, validated by TraceSerdeWrap.tla.
 """
@@ -20,7 +20,11 @@ PID = "C01"
 UUID = "6ba7b810-9dad-11d1-80b4-00c04fd430c8"
 DE_ALL = ["json_client_str", "json_client_slice", "json_client_reader", "json_server_str", "json_server_slice",
           "json_server_reader", "json_server_pretty", "smile_client_slice", "smile_client_reader", "smile_server_slice",
-          "smile_server_reader", "smile_client_mut_slice", "smile_server_mut_slice"]
+          "smile_server_reader", "smile_client_mut_slice", "smile_server_mut_slice",
+          # the convenience functions json::client_from_str::<T> ... (the entries above are the Deserializer structs)
+          "json_client_fn_str", "json_client_fn_slice", "json_client_fn_reader", "json_server_fn_str", "json_server_fn_slice",
+          "json_server_fn_reader", "smile_client_fn_slice", "smile_client_fn_reader", "smile_server_fn_slice",
+          "smile_server_fn_reader", "smile_client_fn_mut_slice", "smile_server_fn_mut_slice"]
 
 
 def f64_of_bits(bits):
@@ -420,7 +424,7 @@ def run(tier, seed):
         "samples": samples, "evaluations": replayed, "distinct_nontrivial": len(nontrivial),
         "rule": "S->I: every (path, leaf) TLC emits (all paths of <=2 entry points, a seeded share of longer ones; 16 "
                 "leaf kinds) + rid/bearer/safelong/datetime/DoubleKey leaves in key and value positions; 6 serializer "
-                "entry points and 13 deserializer entry points each; I->S: random trees of depth <=6, one trace line per "
+                "entry points and 25 deserializer entry points each; I->S: random trees of depth <=6, one trace line per "
                 "leaf per format. Non-trivial = non-empty path; distinct by (path, leaf kind).",
         "model_runs": runs, "coverage_by_action": cov, "trace_lines": len(lines),
         "binding_selftest_rejected_corrupted_trace": bool(bound), "exhaustive": True,
